@@ -65,6 +65,7 @@ type Engine struct {
 	sigs       map[string]FunSig
 	ghosts     map[string]string
 	contractFiles []string
+	mode Mode
 }
 
 func (e *Engine) declareFun(name, sig string) {
@@ -109,19 +110,19 @@ func (e *Engine) contractFor(key string, p *Profile) *Contract {
 	return nil
 }
 
-const commonPrelude = `(set-logic ALL)
+const commonPreludeTmpl = `(set-logic ALL)
 (define-sort FP32 () (_ FloatingPoint 8 24))
 (define-sort FP64 () (_ FloatingPoint 11 53))
 (declare-datatype Slice ((mk_Slice (sl_arr Int) (sl_off Int) (sl_len Int) (sl_cap Int))))
 (declare-datatype Iface ((mk_Iface (if_tag Int) (if_val Int))))
 (declare-fun strlen (Int) Int)
-(declare-fun strat (Int Int) Int)
+(declare-fun strat (Int Int) @BYTE@)
 (declare-fun strcat (Int Int) Int)
 (declare-fun substr (Int Int Int) Int)
 (declare-fun strlt (Int Int) Bool)
 (assert (= (strlen 0) 0))
 (assert (forall ((s Int)) (! (<= 0 (strlen s)) :pattern ((strlen s)))))
-(assert (forall ((s Int) (i Int)) (! (and (<= 0 (strat s i)) (<= (strat s i) 255)) :pattern ((strat s i)))))
+@BYTERANGE@
 (assert (forall ((s Int) (lo Int) (hi Int)) (! (=> (and (<= 0 lo) (<= lo hi) (<= hi (strlen s))) (= (strlen (substr s lo hi)) (- hi lo))) :pattern ((substr s lo hi)))))
 (assert (forall ((s Int) (lo Int) (hi Int) (i Int)) (! (=> (and (<= 0 lo) (<= lo hi) (<= hi (strlen s)) (<= 0 i) (< i (- hi lo))) (= (strat (substr s lo hi) i) (strat s (+ lo i)))) :pattern ((strat (substr s lo hi) i)))))
 `
@@ -144,6 +145,11 @@ func NewEngine(root string, patterns []string, tags string) (*Engine, error) {
 	e := &Engine{root: root, prog: prog, pkgs: pkgs, spkgs: map[string]*ssa.Package{}, contracts: map[string][]*Contract{},
 		dtDeclared: map[string]bool{}, structOf: map[string]*types.Struct{}, funSeen: map[string]bool{}, strIDs: map[string]int{},
 		typeIDs: map[string]int{}, sigs: map[string]FunSig{}, ghosts: map[string]string{}}
+	e.sigs["strlen"] = FunSig{Params: []string{SInt}, Ret: SInt}
+	e.sigs["strat"] = FunSig{Params: []string{SInt, SInt}, Ret: SInt} // Ret fixed by SetMode
+	e.sigs["strcat"] = FunSig{Params: []string{SInt, SInt}, Ret: SInt}
+	e.sigs["substr"] = FunSig{Params: []string{SInt, SInt, SInt}, Ret: SInt}
+	e.sigs["strlt"] = FunSig{Params: []string{SInt, SInt}, Ret: SBool}
 	for _, sp := range prog.AllPackages() {
 		e.spkgs[sp.Pkg.Path()] = sp
 		e.allPkgs = append(e.allPkgs, sp.Pkg)
@@ -341,3 +347,29 @@ func (e *Engine) findFunc(key string) *ssa.Function {
 	}
 	return sp.Func(name)
 }
+
+
+var commonPrelude string
+
+func (e *Engine) SetMode(m Mode) {
+	e.mode = m
+	if m == ModeBV {
+		commonPrelude = strings.ReplaceAll(strings.ReplaceAll(commonPreludeTmpl, "@BYTE@", "(_ BitVec 8)"), "@BYTERANGE@", bvBridge)
+		e.sigs["i2b8"] = FunSig{Params: []string{SInt}, Ret: bvSort(8)}
+		e.sigs["b2i8"] = FunSig{Params: []string{bvSort(8)}, Ret: SInt}
+		e.sigs["strat"] = FunSig{Params: []string{SInt, SInt}, Ret: bvSort(8)}
+	} else {
+		commonPrelude = strings.ReplaceAll(strings.ReplaceAll(commonPreludeTmpl, "@BYTE@", "Int"), "@BYTERANGE@",
+			"(assert (forall ((s Int) (i Int)) (! (and (<= 0 (strat s i)) (<= (strat s i) 255)) :pattern ((strat s i)))))")
+	}
+}
+
+// The only Int<->bit-vector bridge used in bit-vector mode: a bijection between
+// [0,256) and bytes, kept uninterpreted so that solvers use exactly these axioms.
+const bvBridge = `(declare-fun i2b8 (Int) (_ BitVec 8))
+(declare-fun b2i8 ((_ BitVec 8)) Int)
+(assert (forall ((y Int)) (! (=> (and (<= 0 y) (< y 256)) (= (b2i8 (i2b8 y)) y)) :pattern ((i2b8 y)))))
+(assert (forall ((b (_ BitVec 8))) (! (and (= (i2b8 (b2i8 b)) b) (<= 0 (b2i8 b)) (< (b2i8 b) 256)) :pattern ((b2i8 b)))))
+(assert (= (i2b8 0) #x00))
+(assert (= (b2i8 #x00) 0))
+`
